@@ -31,6 +31,8 @@ CONFIGS = {
                                            (None, (np.array([1, 0]), slice(1, 3))), (None, (1, np.array([0, 2]))),
                                            (None, S_[0:2, 0:2]), (4, (slice(None), np.array([1])))]),
     "scalar": dict(shape=(), slices=[]),
+    # rank-0 numpy arrays: one cell like a scalar, but a mutable object like an array
+    "rank0": dict(shape=(), slices=[], rank0=True),
     # the same machine without slices: replayed with DyadCarrier values (the type of every sparse-matrix sensitivity)
     "vec3dyad": dict(shape=(3,), slices=[]),
 }
@@ -54,7 +56,7 @@ def consts_for(name, depth, record, variant="faithful", svals=(1, 3)):
     cfg = CONFIGS[name]
     defs, _ = slice_positions(cfg)
     n = int(np.prod(cfg["shape"])) if cfg["shape"] else 1
-    return dict(N=n, Scalar=(cfg["shape"] == ()), SliceDefs=defs, SVals=set(svals), MaxObj=6,
+    return dict(N=n, Scalar=(cfg["shape"] == () and not cfg.get("rank0")), SliceDefs=defs, SVals=set(svals), MaxObj=6,
                 Depth=depth, Record=record, Variant=variant)
 
 
@@ -71,10 +73,16 @@ def model_check(chk, name, depth, variant="faithful", expect_violation=False):
                              extra_modules={mname: mod}, coverage=False)
 
 
-def emit_behaviours(name, depth, simulate=None, seed=0, svals=(1,)):
+def emit_behaviours(name, depth, simulate=None, seed=0, svals=(1,), on_batch=None):
+    """on_batch(name, behaviours) is called for every 3000 behaviours while TLC is still running"""
+    from vf import par
     mname, mod, cfg = tlc.mc("Signals", consts_for(name, depth, True, svals=svals), invariants=["Emit"])
+    sink = par.Batcher("BEH", 3000, lambda b: on_batch(name, b)) if on_batch else None
     r = tlc.run(mname, cfg, extra_modules={mname: mod}, workers=1, simulate=simulate,
-                depth=depth + 3 if simulate else None, seed=seed, timeout=3000)
+                depth=depth + 3 if simulate else None, seed=seed, timeout=3000, sink=sink)
+    if sink is not None:
+        sink.flush()
+        r.nbeh = sink.n
     return name, r
 
 
@@ -89,7 +97,7 @@ class Replayer:
         self.name = name
         self.z = z
         shape = self.cfg["shape"]
-        self.scalar = shape == ()
+        self.scalar = shape == () and not self.cfg.get("rank0")
         self.n = int(np.prod(shape)) if shape else 1
         dt = complex if isinstance(z, complex) else float
         if self.dyad:
@@ -492,7 +500,7 @@ def run(chk, replay=None):
                         "integer-array slices have no repeated indices; nested slices are basic slices or a slice-then-index-array tuple",
                         "values are small integers times a fixed real or complex unit (additive homomorphism)"]
     # [S] exhaustive checking of the declarative properties on the operational model
-    ex_depth = {"vec4": 6 if thorough else 4, "mat23": 5 if thorough else 4, "mat23mix": 5 if thorough else 4, "scalar": 8 if thorough else 6, "vec3dyad": 6 if thorough else 5}
+    ex_depth = {"vec4": 6 if thorough else 4, "mat23": 5 if thorough else 4, "mat23mix": 5 if thorough else 4, "scalar": 8 if thorough else 6, "rank0": 8 if thorough else 6, "vec3dyad": 6 if thorough else 5}
     for name, d in ex_depth.items():
         model_check(chk, name, d)
     # vacuity guard: negative variants must be refuted
@@ -509,25 +517,21 @@ def run(chk, replay=None):
     plan = []
     for name in CONFIGS:
         plan.append((name, path_depth, None, 0, (1,)))
-        nsim = sim_n if name not in ("scalar", "vec3dyad") else sim_n // 4
+        nsim = sim_n if name not in ("scalar", "rank0", "vec3dyad") else sim_n // 4
         chunks = 8 if thorough else 1
         for c in range(chunks):
             plan.append((name, sim_depth, nsim // chunks, chk.seed * 101 + 7 + c, (1, 3)))
     width = 4
     for k in range(0, len(plan), width):
         with cf.ThreadPoolExecutor(max_workers=width) as ex:
-            futs = [ex.submit(emit_behaviours, *args) for args in plan[k:k + width]]
+            futs = [ex.submit(emit_behaviours, *args, on_batch=lambda nm, b: check_behaviours(chk, nm, b)) for args in plan[k:k + width]]
             for j in cf.as_completed(futs):
                 name, r = j.result()
                 chk.transitions += r.generated
                 chk.tlc_runs.append({"module": "Signals", "label": "emit %s" % name, "generated": r.generated,
                                      "distinct": r.distinct, "wall_s": round(r.wall, 2)})
-                behs = [v[0] for tag, v in r.printed if tag == "BEH"]
-                if not behs:
+                if not r.nbeh:
                     raise tlc.TLCError("no behaviours emitted for %s\n%s" % (name, r.stdout[-1500:]))
-                r.printed = []
-                check_behaviours(chk, name, behs)
-                del behs, r
             del futs
     # [T] code -> spec
     ntr = 4000 if thorough else 300
